@@ -154,6 +154,12 @@ func ruleC17(c *Ctx) {
 					if name == "" || strings.HasPrefix(name, "builtin:") || (callee != nil && c.P.inModule(callee)) {
 						continue
 					}
+					if x.Common().IsInvoke() {
+						// an interface only module types can implement: its implementations are in the cone
+						if is, sealed := c.P.moduleIface(x.Common().Value.Type()); is && sealed {
+							continue
+						}
+					}
 					ct := lookupContract(name)
 					args := x.Common().Args
 					if x.Common().IsInvoke() {
